@@ -117,6 +117,11 @@ pub fn run(ctx: &mut Ctx) {
                 shapes.push(vec![Line::new(build::line(1, 1, None, b"A", &chars[..1], f), decode)]);
                 shapes.push(vec![Line::new(build::line(2, 1, Some(5), b"A", b"15", 0), false), Line::new(build::line(2, 2, Some(5), b"A", &chars[..1], f), decode)]);
             }
+            // a group that decodes (type 8: any length does) whose closing fragment is the single character c
+            for f in 0..6u32 {
+                shapes.push(vec![Line::new(build::line(2, 1, Some(7), b"A", b"85Mwp`1Kf3aCnsNvBWLi", 0), decode), Line::new(build::line(2, 2, Some(7), b"A", &chars[..1], f), decode)]);
+                shapes.push(vec![Line::new(build::line(2, 1, None, b"A", b"85Mwp`1Kf3aCnsNvBWLi", 0), decode), Line::new(build::line(2, 2, None, b"A", &chars[..1], f), decode)]);
+            }
             // long payloads: the type is the first character's, whatever the length (255, 256, 257, 384, 512, 513)
             for len in [255usize, 256, 257, 384, 511, 512, 513] {
                 let long: Vec<u8> = (0..len).map(|i| if i == 0 { c } else { armor::ALPHABET[(i * 13 + v as usize) & 63] }).collect();
